@@ -988,7 +988,7 @@ Proof.
   - inversion H; subst. exact Hst.
   - apply andb_true_iff in Hp. destruct Hp as [Hi Hp].
     destruct (step base i st) as [e|st1] eqn:E; [discriminate|].
-    eapply IH; eauto. eapply step_inv; eauto.
+    apply (IH st1 st' Hb Hp); [|exact H]. eapply step_inv; eauto.
 Qed.
 
 (* every program without "operator = INTERSECTION", on any parsed cell or from scratch, writes a text that
@@ -1100,7 +1100,8 @@ Proof. reflexivity. Qed.
 
 (* a program through the wire entry: base "(1:-2) 3", program  b p4 n5 O IA  (geometry &= (+s4 | -s5)) *)
 Lemma ex_run_case :
-  run_case (Some (GBin OInter (GParen (GBin OUnion (GShift (GVal true 1)) (GVal false 2))) (GVal true 3)))
+  exists h, run_case (Some (GBin OInter (GParen (GBin OUnion (GShift (GVal true 1)) (GVal false 2))) (GVal true 3)))
            [IBase; ISurf true 4; ISurf false 5; IOr; IIand]
-  = inr (HBin OInter (HUnit false true 1) (HUnit false true 1) None, []) -> False.
-Proof. vm_compute. intros H. inversion H. Qed.
+  = inr (h, [TLParen; TLeaf true 1; TColon; TLeaf false 2; TRParen; TLeaf true 3;
+             TLParen; TLeaf true 4; TColon; TLeaf false 5; TRParen]).
+Proof. eexists. vm_compute. reflexivity. Qed.
